@@ -22,7 +22,7 @@ RULE = ("per format: every sequence of the format's token alphabet up to the tie
         "the parse has at least two entries")
 
 FTL_TOKENS = ["k", " = ", "v", "\n", "# c", "-t", "    .a = b", "{", "}", "$x", " ", "*[o]", "[one]",
-              " ->", "junk!", "##", "\n\n", "{ k }"]
+              " ->", "junk!", "##", "\n\n", "{ k }", "\t", "\t\n", " \t"]
 
 
 def ftl_body(text):
@@ -43,7 +43,7 @@ def ftl_body(text):
             body.append([1, [a, b], [e.id.span.start, e.id.span.end],
                          [[e.value.span.start, e.value.span.end]] if e.value is not None else [], []])
         elif isinstance(e, ftl.Junk):
-            if e.content != text[a:b] or not e.content.strip(" \t\r\n"):
+            if e.content != text[a:b] or a >= b:
                 contract_ok = False
             body.append([2, [a, b], [0, 0], [], canon(e.content)])
         elif isinstance(e, ftl.BaseComment):
@@ -160,8 +160,7 @@ def run(chk, runner_ok):
             chk.distinct.add(("ftl", s))
     chk.sample({"suite": "PARSE-ftl", "text": texts[7], "impl": impl[7]})
     chk.assumptions.append(
-        f"fluent.syntax body contract (ordered spans inside the text, junk content = slice, junk "
-        f"has a non-blank character): checked on {len(texts)} inputs, {broken_contract} violations")
+        f"fluent.syntax body contract (ordered spans inside the text, junk content = slice): checked on {len(texts)} inputs, {broken_contract} violations")
     if broken_contract:
         chk.notes.append("fluent.syntax contract violated on some inputs (assumption failure, not a property violation)")
     if model:
